@@ -26,14 +26,14 @@ hs_uriChar = Regex(r"([^\x00-\x1f\\`]|\\[bfnrt\\:/?" \
 hs_uri = Combine(Suppress(Literal('`')) + ZeroOrMore(hs_uriChar) + Suppress(Literal('`'))).setParseAction(
     lambda toks: Uri(toks[0])
 )
-hs_digits = Regex(r'[0-9_]+')
+hs_digits = Regex(r'[0-9][0-9_]*')
 hs_alpha = Regex(r'[a-zA-Z]')
 hs_valueSep = Regex(r' *, *')
 hs_plusMinus = Literal('+') | Literal('-')
 hs_exp = Combine(CaselessLiteral('e') + Optional(hs_plusMinus) + hs_digits)
 hs_decimal = Combine(
     Optional(Literal('-')) + hs_digits + Optional(Literal('.') + hs_digits) + Optional(hs_exp)).setParseAction(
-    lambda toks: float(toks[0])
+    lambda toks: float(toks[0].replace('_', ''))
 )
 hs_unitChar = hs_alpha | Word(u'%_/$' + u''.join([
     six.unichr(c)
@@ -41,7 +41,7 @@ hs_unitChar = hs_alpha | Word(u'%_/$' + u''.join([
 ]), exact=1)
 hs_unit = Combine(OneOrMore(hs_unitChar)).leaveWhitespace()  # no blank between number and unit
 hs_digit = Regex(r'\d')
-hs_digits = Regex(r'[0-9_]+')
+hs_digits = Regex(r'[0-9][0-9_]*')
 hs_quantity = (hs_decimal + hs_unit).setParseAction(
     lambda toks: Quantity(toks[0], toks[1])
 )
